@@ -89,6 +89,27 @@ Theorem C20_derivation_deterministic :
 Proof. exact derivation_deterministic. Qed.
 Print Assumptions C20_derivation_deterministic.
 
+(** The same phrase and index always derive the same key, in the form the property uses it:
+    over call histories.  [hrun] runs a list of calls (SeedFromPhrase into a numbered seed
+    buffer, in-place overwrites, KeyFromSeed from a buffer) and returns the keys; whatever the
+    initial contents of the buffers, whatever happened before, whichever buffer is used and
+    whatever is done with other buffers in between, the key returned for (phrase, index) is
+    [key_from_phrase phrase index].  A history-dependent implementation (a cache keyed by
+    anything but the buffer's contents) contradicts this; the harness runs such histories on
+    the real functions. *)
+Theorem C20_same_phrase_same_key :
+  forall (cks : N -> N -> N) (H : list N -> list N) (Key : Type) (newkey : list N -> Key)
+         st st' pre pre' b b' ts ts' s mid mid' i i',
+    seed_from_phrase cks H ts = Some s -> decode cks ts = decode cks ts' -> i mod 2 ^ 64 = i' mod 2 ^ 64 ->
+    forallb (fun op => negb (hwrites op b)) mid = true ->
+    forallb (fun op => negb (hwrites op b')) mid' = true ->
+    exists ks ks' k,
+      snd (hrun cks H Key newkey st (pre ++ HLoad b ts :: mid ++ [HKey b i])) = ks ++ [k] /\
+      snd (hrun cks H Key newkey st' (pre' ++ HLoad b' ts' :: mid' ++ [HKey b' i'])) = ks' ++ [k] /\
+      key_from_phrase cks H Key newkey ts i = Some k.
+Proof. exact same_phrase_same_key. Qed.
+Print Assumptions C20_same_phrase_same_key.
+
 (** Different (seed, index) pairs are hashed as different byte strings: distinct
     keys then rest on the collision resistance of blake2b only. *)
 Theorem C20_derivation_inputs_distinct :
